@@ -157,6 +157,18 @@ Proof.
   cbn. destruct (k a w1); reflexivity.
 Qed.
 
+Lemma finally_unfold : forall A (c : M A) (f : M unit) w,
+  finally_ c f w = match c w with
+                   | mkR v w1 e1 =>
+                       match f w1 with
+                       | mkR (inl _) w2 e2 => mkR v w2 (e1 ++ e2)
+                       | mkR (inr x) w2 e2 => mkR (inr x) w2 (e1 ++ e2)
+                       end
+                   end.
+Proof.
+  intros. unfold finally_. destruct (c w) as [v w1 e1]. cbn. destruct (f w1) as [[u|x] w2 e2]; reflexivity.
+Qed.
+
 Lemma prepend_prepend : forall A e1 e2 (r : res A), prepend e1 (prepend e2 r) = prepend (e1 ++ e2) r.
 Proof. intros. destruct r. cbn. rewrite app_assoc. reflexivity. Qed.
 
@@ -176,8 +188,8 @@ Ltac py_lit :=
   end.
 
 Ltac ev_step tac :=
-  rewrite ?bind_unfold, ?try_unfold;
-  cbv beta iota zeta delta -[bind try_ Z.add Z.sub Z.mul Z.opp Z.ltb Z.leb Z.eqb Z.of_nat
+  rewrite ?bind_unfold, ?try_unfold, ?finally_unfold;
+  cbv beta iota zeta delta -[bind try_ finally_ Z.add Z.sub Z.mul Z.opp Z.ltb Z.leb Z.eqb Z.of_nat
                              py_int py_int_bytes z_to_dec in_i64 has_key existsb filter app sort_rows replay_loop gen
                              I64MAX I64MIN];
   cbn [filter app replay_loop];
